@@ -129,31 +129,30 @@ def decParity (bits : Nat) (bs : List Nat) : Except Err Nat :=
       | none => .error .custom
       | some v => .ok v
 
+/-- the closure ruint passes to `decode_value` for `Bits`: exactly `BYTES` bytes, value in range. -/
+def bitsBody (bits : Nat) (d : List Nat) : Except Err Nat :=
+  if d.length < nbytes bits then .error .rlpIsTooShort
+  else if nbytes bits < d.length then .error .rlpIsTooBig
+  else match tryFromBE bits d with
+    | none => .error .rlpIsTooBig
+    | some v => .ok v
+
 /-- `Decodable for Bits`: `decoder().decode_value` then exactly `BYTES` bytes. -/
 def decParityBits (bits : Nat) (bs : List Nat) : Except Err Nat :=
-  let f (d : List Nat) : Except Err Nat :=
-    if d.length < nbytes bits then .error .rlpIsTooShort
-    else if nbytes bits < d.length then .error .rlpIsTooBig
-    else match tryFromBE bits d with
-      | none => .error .rlpIsTooBig
-      | some v => .ok v
   match bs with
   | [] => .error .rlpIsTooShort
   | l :: rest =>
-    if l ≤ 0x7f then f [l]
+    if l ≤ 0x7f then bitsBody bits [l]
     else if l ≤ 0xb7 then
-      let n := l - 0x80
-      if rest.length < n then .error .rlpInconsistentLengthAndData
+      if rest.length < l - 0x80 then .error .rlpInconsistentLengthAndData
       else if l = 0x81 ∧ rest.headD 0 < 0x80 then .error .rlpInvalidIndirection
-      else f (rest.take n)
+      else bitsBody bits (rest.take (l - 0x80))
     else if l ≤ 0xbf then
-      let lol := l - 0xb7
-      if rest.length < lol then .error .rlpInconsistentLengthAndData
+      if rest.length < l - 0xb7 then .error .rlpInconsistentLengthAndData
       else if rest.headD 1 = 0 then .error .rlpInvalidIndirection
       else
-        let len := beVal (rest.take lol)
-        if rest.length - lol < len then .error .rlpInconsistentLengthAndData
-        else f ((rest.drop lol).take len)
+        if rest.length - (l - 0xb7) < beVal (rest.take (l - 0xb7)) then .error .rlpInconsistentLengthAndData
+        else bitsBody bits ((rest.drop (l - 0xb7)).take (beVal (rest.take (l - 0xb7))))
     else .error .rlpExpectedToBeData
 
 /-- `Encodable for Bits`: the full `BYTES`-long big-endian string. -/
